@@ -2,7 +2,6 @@
 PENDING.update({
  "C02": "check not built yet in this round (planned: builder over a fault-injecting sink, DESIGN section 4)",
  "C10": "check not built yet in this round (planned: xfr simulation, DESIGN section 4)",
- "C11": "check not built yet in this round (planned: tsig simulation, DESIGN section 4)",
  "C14": "check not built yet in this round (planned: validator simulation, DESIGN section 4)",
 })
 claim("C15", "exploration",
@@ -34,3 +33,9 @@ claim("C16", "exploration",
       "Losses are excused only for a connection whose own client aborted, sent a hostile frame, stalled reading beyond the write timeout (or used a tiny window against a sub-second write timeout). Trusted: tokio runtime FIFO scheduling of per-request tasks, the stub service/clients/ledger in /verif/sim. A busy-wait in the library (yield_now loop while the response queue is full inside a transaction) is bridged by the simulator's spin breaker, which advances virtual time when 1024 task polls pass without any simulation event.",
       "deterministic simulation with fault injection (hostile and misbehaving clients, seeded pacing/segmentation/stalls/aborts), exactly-once ledger over recorded server output",
       "DESIGN.md section 4, C16")
+
+claim("C11", "exploration",
+      "Seeded exploration of two TSIG endpoints with skewed/jumping clocks over a tampering channel: requests, answers, signed BADTIME and unsigned error responses, multi-message sequences from the library's own server and from an independent RFC 8945 signer (signed/unsigned patterns up to 100 unsigned in a row). Every MAC the library produces must equal an independent RFC 8945 computation; every verdict (accept / reject and the error class) on every delivered, possibly mutated message must equal the model's; accepted messages must be restored to their pre-signing form; a rejected forged answer must leave the transaction usable. Evidence, not proof.",
+      "Trusted: ring::hmac as a primitive, the independent wire scanner / digest model / signer in /verif/sim. Clock skew is injected through the `now` parameter of the core API. Stale TSIG octets left behind the restored message are reported as KNOWN-FINDING.",
+      "deterministic simulation with fault injection (tampering channel, clock skew/jumps) against an independent executable RFC 8945 reference model",
+      "DESIGN.md section 4, C11")
